@@ -62,6 +62,17 @@ Theorem C03_goroutines_are_the_known_ones :
   forallb (fun g => existsb (fun k => String.eqb (fst g) (fst k) && String.eqb (snd g) (snd k)) known_goroutines) go_stmts = true.
 Proof. vm_compute. reflexivity. Qed.
 
+(* 5. a recovered panic never leaves a mutex held: every Lock()/RLock() is directly followed by the matching deferred
+      unlock, except the reviewed sections whose bodies cannot panic (a map lookup + insert of a fresh limiter; Seek +
+      ReadAll / Write on the text stores; the idle ticker, which is not a connection goroutine) *)
+Definition reviewed_sections : list (string * string) :=
+  [("*Server.Serve", "s.rateLimitersMu"); ("*Server.keepaliveHandler", "c.mu"); ("*Server.handleNewConnection", "s.agreementMu");
+   ("HandleGetMsgs", "messageBoardMu"); ("HandleTranOldPostNews", "messageBoardMu")].
+Theorem C03_locks_released_on_panic :
+  forallb (fun l => let '(fn, mu, deferred) := l in
+                    deferred || existsb (fun k => String.eqb fn (fst k) && String.eqb mu (snd k)) reviewed_sections) lock_sites = true.
+Proof. vm_compute. reflexivity. Qed.
+
 (* ---- the bracket: whatever the peer sends and however the handler ends, the connection's footprint is gone ---- *)
 Lemma remove_id_cons id l : ~ In id l -> remove_id id (id :: l) = remove_id id l.
 Proof. intros _. unfold remove_id. cbn. now rewrite Nat.eqb_refl. Qed.
@@ -110,6 +121,7 @@ Print Assumptions C03_recover_first.
 Print Assumptions C03_acquisitions_are_bracketed.
 Print Assumptions C03_shared_maps_locked.
 Print Assumptions C03_goroutines_are_the_known_ones.
+Print Assumptions C03_locks_released_on_panic.
 Print Assumptions C03_control_bracket_restores.
 Print Assumptions C03_rejected_connection_leaves_no_trace.
 Print Assumptions C03_transfer_bracket_restores.
